@@ -273,6 +273,9 @@ func (PKIForgeryEngine) Gen(prop, tier string, seed uint64, yield func(c any) bo
 	if tier == "thorough" {
 		n = 300000
 	}
+	if prop != "C01" {
+		n /= 4
+	}
 	rng := core.NewRng(core.SubSeed(seed, "pki-forgery", tier))
 	for i := 0; i < n; i++ {
 		s := genProfile(rng, i/len(forgeryKinds)*7+i%7)
